@@ -7,9 +7,9 @@ TITLE = "trust-anchor policies bind the calendar root to the anchor"
 
 
 def run(prog, chk):
-    extended_chain_table(prog, chk)
-    raw_signature_table(prog, chk)
-    certificate_time_table(prog, chk)
+    chk.defer(extended_chain_table, prog, chk)
+    chk.defer(raw_signature_table, prog, chk)
+    chk.defer(certificate_time_table, prog, chk)
     chk.explanation = (
         "R5/R7 over CALENDAR_BASED, KEY_BASED, PUBLICATIONS_FILE_BASED, USER_PUBLICATION_BASED and GENERAL: every evaluation path "
         "ending OK satisfies the internal certificate AND the anchor certificate of the policy (written from the statement: "
